@@ -572,3 +572,79 @@ func H_C12_reject() {
 	verifAssert(hSameSlots(ob, hSnapObject(o, false)), "a rejected value leaves the object unchanged")
 	verifReach("end")
 }
+
+// containers in their degenerate forms (no elements, built by every constructor and deriving operation), stored in
+// another container through Add and Set and read back: TypeOf, Get and the typed getter agree, identity is kept
+func H_C12_degenerate_containers_stored() {
+	var v any
+	k := nondetIntRange(0, 13)
+	switch k {
+	case 0:
+		v = NewListOf(nondetInt(), 0)
+	case 1:
+		v = NewList()
+	case 2:
+		v = NewListFrom([]int{})
+	case 3:
+		v = NewListFrom([]any{})
+	case 4:
+		v = NewList(1, 2).SubList(1, 1)
+	case 5:
+		v = NewList().Clone()
+	case 6:
+		v = NewList().Concat(NewList())
+	case 7:
+		l, _ := ParseList("[]")
+		v = l
+	case 8:
+		v = NewList(1).Filter(func(any) bool { return false })
+	case 9:
+		v = NewObject()
+	case 10:
+		v = NewObjectFrom(map[string]any{})
+	case 11:
+		v = NewObject().Clone()
+	case 12:
+		o, _ := ParseObject("{}")
+		v = o
+	default:
+		v = NewObject("a", 1).Keys().Clear()
+	}
+	_, isList := v.(List)
+	outerL := NewList(0).Add(v)
+	outerO := NewObject("k", v)
+	outerT := NewList().SetTF("#0.f", v)
+	if isList {
+		verifAssert(outerL.TypeOf(1) == TypeList && outerO.TypeOf("k") == TypeList && outerT.TypeOfTF("#0.f") == TypeList, "a stored empty list reports TypeList")
+		g1, ok1 := outerL.Get(1).(List)
+		g2, ok2 := outerO.Get("k").(List)
+		g3, ok3 := outerT.GetTF("#0.f").(List)
+		verifAssert(ok1 && ok2 && ok3, "Get returns a stored empty list as a List")
+		p := verifCatch(func() {
+			verifAssert(outerL.GetList(1) == g1 && outerO.GetList("k") == g2, "GetList returns what Get returns")
+		})
+		verifAssert(!p, "GetList on a stored empty list does not panic")
+		if ok1 && ok2 && ok3 {
+			verifAssert(g1 == v && g2 == v && g3 == v, "the stored empty list is the list that was passed in")
+			verifAssert(g1.Count() == 0 && g1.Empty(), "it is still empty")
+			g1.Add(7)
+			verifAssert(v.(List).Count() == 1 && outerO.GetList("k").GetInt(0) == 7, "and it is one container seen through every holder")
+		}
+	} else {
+		verifAssert(outerL.TypeOf(1) == TypeObject && outerO.TypeOf("k") == TypeObject && outerT.TypeOfTF("#0.f") == TypeObject, "a stored empty object reports TypeObject")
+		g1, ok1 := outerL.Get(1).(Object)
+		g2, ok2 := outerO.Get("k").(Object)
+		g3, ok3 := outerT.GetTF("#0.f").(Object)
+		verifAssert(ok1 && ok2 && ok3, "Get returns a stored empty object as an Object")
+		p := verifCatch(func() {
+			verifAssert(outerL.GetObject(1) == g1 && outerO.GetObject("k") == g2, "GetObject returns what Get returns")
+		})
+		verifAssert(!p, "GetObject on a stored empty object does not panic")
+		if ok1 && ok2 && ok3 {
+			verifAssert(g1 == v && g2 == v && g3 == v, "the stored empty object is the object that was passed in")
+			g1.Set("n", 7)
+			verifAssert(v.(Object).Count() == 1 && outerO.GetObject("k").GetInt("n") == 7, "and it is one container seen through every holder")
+		}
+	}
+	verifReach("end")
+}
